@@ -1,12 +1,780 @@
-// Package c06 checks property C06 (not built yet).
+// Package c06 checks property C06: the type reported for every instruction,
+// value-producing terminator and constant expression is the result type LLVM's
+// rules give it, and the parser and the ir package agree.
+//
+// (S) spec/Types.tla ResultType + spec/TypesRes.tla (the sentences of the
+// property as invariants of the required function; counterexamples for the
+// rules as implemented). (G) TLC enumerates kind x form x operand shapes with
+// the required type. For every case the harness
+//
+//	(a) builds the value with the real constructor and compares Type();
+//	(b) renders a function in which the result is used at the required type;
+//	    llvm-as accepting it validates the specification against LLVM;
+//	(c) parses that text with asm and compares the type the parser attached
+//	    and the type recomputed by ir / constant after the cached Typ field
+//	    has been cleared by reflection.
 package c06
 
 import (
+	"fmt"
+	"io"
+	"log"
+	"math/rand"
+	"path/filepath"
+	"reflect"
+	"sort"
+	"strings"
+	"time"
+
+	"github.com/llir/llvm/asm"
+	"github.com/llir/llvm/ir"
+	"github.com/llir/llvm/ir/constant"
+	"github.com/llir/llvm/ir/enum"
+	"github.com/llir/llvm/ir/types"
+	"github.com/llir/llvm/ir/value"
+
+	"verif/harness/llvmoracle"
 	"verif/harness/mbt"
 	"verif/harness/props/reg"
+	"verif/harness/props/tyutil"
 )
 
 func init() { reg.Register("C06", Run) }
 
+type xrec struct {
+	To  *tyutil.Term `json:"to,omitempty"`
+	Ty  *tyutil.Term `json:"ty,omitempty"`
+	Idx []int        `json:"idx,omitempty"`
+	AS  int          `json:"as,omitempty"`
+	Op  string       `json:"op,omitempty"`
+}
+
+type rcase struct {
+	Defs map[string]*tyutil.Body `json:"defs,omitempty"`
+	Kind string                  `json:"kind,omitempty"`
+	Form string                  `json:"form,omitempty"`
+	Ops  []*tyutil.Term          `json:"ops"`
+	X    xrec                    `json:"x"`
+	Want *tyutil.Term            `json:"want,omitempty"`
+}
+
+func (c *rcase) key() string {
+	var os []string
+	for _, o := range c.Ops {
+		os = append(os, o.LL())
+	}
+	s := c.Kind + "/" + c.Form + "(" + strings.Join(os, "; ") + ")"
+	if c.X.To != nil {
+		s += " to " + c.X.To.LL()
+	}
+	if c.X.Ty != nil {
+		s += " ty " + c.X.Ty.LL()
+	}
+	if len(c.X.Idx) > 0 {
+		s += fmt.Sprint(" idx ", c.X.Idx)
+	}
+	if c.X.AS != 0 {
+		s += fmt.Sprint(" as ", c.X.AS)
+	}
+	if c.X.Op != "" {
+		s += " " + c.X.Op
+	}
+	return s
+}
+
+var goName = map[string]string{
+	"fneg": "FNeg", "add": "Add", "fadd": "FAdd", "sub": "Sub", "fsub": "FSub", "mul": "Mul", "fmul": "FMul",
+	"udiv": "UDiv", "sdiv": "SDiv", "fdiv": "FDiv", "urem": "URem", "srem": "SRem", "frem": "FRem",
+	"shl": "Shl", "lshr": "LShr", "ashr": "AShr", "and": "And", "or": "Or", "xor": "Xor",
+	"extractelement": "ExtractElement", "insertelement": "InsertElement", "shufflevector": "ShuffleVector",
+	"extractvalue": "ExtractValue", "insertvalue": "InsertValue",
+	"alloca": "Alloca", "load": "Load", "cmpxchg": "CmpXchg", "atomicrmw": "AtomicRMW",
+	"trunc": "Trunc", "zext": "ZExt", "sext": "SExt", "fptrunc": "FPTrunc", "fpext": "FPExt", "fptoui": "FPToUI",
+	"fptosi": "FPToSI", "uitofp": "UIToFP", "sitofp": "SIToFP", "ptrtoint": "PtrToInt", "inttoptr": "IntToPtr",
+	"bitcast": "BitCast", "addrspacecast": "AddrSpaceCast",
+	"icmp": "ICmp", "fcmp": "FCmp", "phi": "Phi", "select": "Select", "freeze": "Freeze", "call": "Call",
+	"va_arg": "VAArg", "landingpad": "LandingPad", "catchpad": "CatchPad", "cleanuppad": "CleanupPad",
+	"invoke": "Invoke", "callbr": "CallBr", "catchswitch": "CatchSwitch",
+}
+
+var casts = map[string]bool{"trunc": true, "zext": true, "sext": true, "fptrunc": true, "fpext": true, "fptoui": true, "fptosi": true,
+	"uitofp": true, "sitofp": true, "ptrtoint": true, "inttoptr": true, "bitcast": true, "addrspacecast": true}
+var binaries = map[string]bool{"add": true, "fadd": true, "sub": true, "fsub": true, "mul": true, "fmul": true, "udiv": true, "sdiv": true,
+	"fdiv": true, "urem": true, "srem": true, "frem": true, "shl": true, "lshr": true, "ashr": true, "and": true, "or": true, "xor": true}
+
+// --- rendering (independent of the library's printer) -------------------------
+
+const prelude = "declare i32 @__gxx_personality_v0(...)\ndeclare i32 @__CxxFrameHandler3(...)\ndeclare void @g()\n"
+
+// maskText renders the constant mask operand of shufflevector.
+func maskText(m *tyutil.Term) string {
+	if m.SC {
+		return "zeroinitializer"
+	}
+	var es []string
+	for i := 0; i < m.N; i++ {
+		es = append(es, fmt.Sprintf("i32 %d", i%2))
+	}
+	return "<" + strings.Join(es, ", ") + ">"
+}
+
+func idxText(idx []int) string {
+	var b strings.Builder
+	for _, i := range idx {
+		fmt.Fprintf(&b, ", %d", i)
+	}
+	return b.String()
+}
+
+// calleeText renders "[addrspace(n)] <type> %a0(<args>)" of a call-like instruction.
+func (c *rcase) calleeText(callee string) string {
+	pt := c.Ops[0]
+	ft := pt.E
+	ty := ft.Ret.LL()
+	if ft.VA {
+		ty = ft.LL()
+	}
+	var args []string
+	for i := 1; i < len(c.Ops); i++ {
+		args = append(args, fmt.Sprintf("%s %%a%d", c.Ops[i].LL(), i))
+	}
+	as := ""
+	if pt.AS != 0 {
+		as = fmt.Sprintf("addrspace(%d) ", pt.AS)
+	}
+	return fmt.Sprintf("%s%s %s(%s)", as, ty, callee, strings.Join(args, ", "))
+}
+
+// unit renders the function that produces the value and uses it at the required type.
+func (c *rcase) unit(name string) string {
+	w := c.Want.LL()
+	op := func(i int) string { return fmt.Sprintf("%s %%a%d", c.Ops[i].LL(), i) }
+	use := fmt.Sprintf("  store %s %%r, %s* %%p\n", w, w)
+	res := "%r = "
+	noStore := c.Want.K == "void" || c.Want.K == "token"
+	if noStore {
+		use = ""
+	}
+	if c.Want.K == "void" {
+		res = ""
+	}
+	var params []string
+	for i, o := range c.Ops {
+		if c.Kind == "shufflevector" && i == 2 {
+			continue // the mask is a constant
+		}
+		if c.Kind == "callbr" {
+			continue // operands are the inline assembly and a block address
+		}
+		params = append(params, fmt.Sprintf("%s %%a%d", o.LL(), i))
+	}
+	if !noStore {
+		params = append(params, w+"* %p")
+	}
+	sigParams := strings.Join(params, ", ")
+	if c.Form == "cexpr" {
+		u := func(i int) string { return c.Ops[i].LL() + " undef" }
+		var e string
+		switch {
+		case c.Kind == "fneg":
+			e = fmt.Sprintf("fneg (%s)", u(0))
+		case binaries[c.Kind]:
+			e = fmt.Sprintf("%s (%s, %s)", c.Kind, u(0), u(1))
+		case c.Kind == "icmp":
+			e = fmt.Sprintf("icmp eq (%s, %s)", u(0), u(1))
+		case c.Kind == "fcmp":
+			e = fmt.Sprintf("fcmp oeq (%s, %s)", u(0), u(1))
+		case c.Kind == "extractelement":
+			e = fmt.Sprintf("extractelement (%s, %s 0)", u(0), c.Ops[1].LL())
+		case c.Kind == "insertelement":
+			e = fmt.Sprintf("insertelement (%s, %s, %s 0)", u(0), u(1), c.Ops[2].LL())
+		case c.Kind == "shufflevector":
+			e = fmt.Sprintf("shufflevector (%s, %s, %s %s)", u(0), u(1), c.Ops[2].LL(), maskText(c.Ops[2]))
+		case casts[c.Kind]:
+			e = fmt.Sprintf("%s (%s to %s)", c.Kind, u(0), c.X.To.LL())
+		case c.Kind == "select":
+			e = fmt.Sprintf("select (%s, %s, %s)", u(0), u(1), u(2))
+		default:
+			panic("no constant-expression template for " + c.Kind)
+		}
+		return fmt.Sprintf("define void @%s(%s* %%p) {\n  store %s %s, %s* %%p\n  ret void\n}\n", name, w, w, e, w)
+	}
+	simple := func(body string) string {
+		return fmt.Sprintf("define void @%s(%s) {\n  %s%s\n%s  ret void\n}\n", name, sigParams, res, body, use)
+	}
+	switch {
+	case c.Kind == "fneg":
+		return simple("fneg " + op(0))
+	case binaries[c.Kind]:
+		return simple(fmt.Sprintf("%s %s, %%a1", c.Kind, op(0)))
+	case c.Kind == "icmp":
+		return simple(fmt.Sprintf("icmp eq %s, %%a1", op(0)))
+	case c.Kind == "fcmp":
+		return simple(fmt.Sprintf("fcmp oeq %s, %%a1", op(0)))
+	case c.Kind == "extractelement":
+		return simple(fmt.Sprintf("extractelement %s, %s", op(0), op(1)))
+	case c.Kind == "insertelement":
+		return simple(fmt.Sprintf("insertelement %s, %s, %s", op(0), op(1), op(2)))
+	case c.Kind == "shufflevector":
+		return simple(fmt.Sprintf("shufflevector %s, %s, %s %s", op(0), op(1), c.Ops[2].LL(), maskText(c.Ops[2])))
+	case c.Kind == "extractvalue":
+		return simple(fmt.Sprintf("extractvalue %s%s", op(0), idxText(c.X.Idx)))
+	case c.Kind == "insertvalue":
+		return simple(fmt.Sprintf("insertvalue %s, %s%s", op(0), op(1), idxText(c.X.Idx)))
+	case c.Kind == "alloca":
+		s := "alloca " + c.X.Ty.LL()
+		if c.X.AS != 0 {
+			s += fmt.Sprintf(", addrspace(%d)", c.X.AS)
+		}
+		return simple(s)
+	case c.Kind == "load":
+		return simple(fmt.Sprintf("load %s, %s", c.X.Ty.LL(), op(0)))
+	case c.Kind == "cmpxchg":
+		return simple(fmt.Sprintf("cmpxchg %s, %s, %s seq_cst seq_cst", op(0), op(1), op(2)))
+	case c.Kind == "atomicrmw":
+		return simple(fmt.Sprintf("atomicrmw %s %s, %s seq_cst", c.X.Op, op(0), op(1)))
+	case casts[c.Kind]:
+		return simple(fmt.Sprintf("%s %s to %s", c.Kind, op(0), c.X.To.LL()))
+	case c.Kind == "select":
+		return simple(fmt.Sprintf("select %s, %s, %s", op(0), op(1), op(2)))
+	case c.Kind == "freeze":
+		return simple("freeze " + op(0))
+	case c.Kind == "va_arg":
+		return simple(fmt.Sprintf("va_arg %s, %s", op(0), c.X.Ty.LL()))
+	case c.Kind == "call":
+		return simple("call " + c.calleeText("%a0"))
+	case c.Kind == "phi":
+		return fmt.Sprintf("define void @%s(%s) {\nentry:\n  br label %%b\nb:\n  %%r = phi %s [ %%a0, %%entry ]\n%s  ret void\n}\n", name, sigParams, c.X.Ty.LL(), use)
+	case c.Kind == "invoke":
+		return fmt.Sprintf("define void @%s(%s) personality i32 (...)* @__gxx_personality_v0 {\nentry:\n  %sinvoke %s to label %%ok unwind label %%lp\nok:\n%s  ret void\nlp:\n  %%e = landingpad { i8*, i32 } cleanup\n  ret void\n}\n",
+			name, sigParams, res, c.calleeText("%a0"), use)
+	case c.Kind == "callbr":
+		ft := c.Ops[0].E
+		cons := "=r,X"
+		if ft.Ret.K == "void" {
+			cons = "X"
+		}
+		return fmt.Sprintf("define void @%s(%s) {\nentry:\n  %scallbr %s asm \"\", \"%s\"(i8* blockaddress(@%s, %%t)) to label %%ok [label %%t]\nok:\n%s  ret void\nt:\n  ret void\n}\n",
+			name, sigParams, res, ft.Ret.LL(), cons, name, use)
+	case c.Kind == "landingpad":
+		return fmt.Sprintf("define void @%s(%s) personality i32 (...)* @__gxx_personality_v0 {\nentry:\n  invoke void @g() to label %%ok unwind label %%lp\nok:\n  ret void\nlp:\n  %%r = landingpad %s cleanup\n%s  ret void\n}\n",
+			name, sigParams, c.X.Ty.LL(), use)
+	case c.Kind == "catchswitch":
+		return fmt.Sprintf("define void @%s() personality i32 (...)* @__CxxFrameHandler3 {\nentry:\n  invoke void @g() to label %%ok unwind label %%cs\nok:\n  ret void\ncs:\n  %%r = catchswitch within none [label %%cp] unwind to caller\ncp:\n  %%c = catchpad within %%r [i8* null, i32 64, i8* null]\n  catchret from %%c to label %%ok\n}\n", name)
+	case c.Kind == "catchpad":
+		return fmt.Sprintf("define void @%s() personality i32 (...)* @__CxxFrameHandler3 {\nentry:\n  invoke void @g() to label %%ok unwind label %%cs\nok:\n  ret void\ncs:\n  %%s = catchswitch within none [label %%cp] unwind to caller\ncp:\n  %%r = catchpad within %%s [i8* null, i32 64, i8* null]\n  catchret from %%r to label %%ok\n}\n", name)
+	case c.Kind == "cleanuppad":
+		return fmt.Sprintf("define void @%s() personality i32 (...)* @__CxxFrameHandler3 {\nentry:\n  invoke void @g() to label %%ok unwind label %%cl\nok:\n  ret void\ncl:\n  %%r = cleanuppad within none []\n  cleanupret from %%r unwind to caller\n}\n", name)
+	}
+	panic("no template for " + c.Kind)
+}
+
+// --- constructors ----------------------------------------------------------------
+
+var instBin = map[string]func(x, y value.Value) value.Value{
+	"add": func(x, y value.Value) value.Value { return ir.NewAdd(x, y) }, "fadd": func(x, y value.Value) value.Value { return ir.NewFAdd(x, y) },
+	"sub": func(x, y value.Value) value.Value { return ir.NewSub(x, y) }, "fsub": func(x, y value.Value) value.Value { return ir.NewFSub(x, y) },
+	"mul": func(x, y value.Value) value.Value { return ir.NewMul(x, y) }, "fmul": func(x, y value.Value) value.Value { return ir.NewFMul(x, y) },
+	"udiv": func(x, y value.Value) value.Value { return ir.NewUDiv(x, y) }, "sdiv": func(x, y value.Value) value.Value { return ir.NewSDiv(x, y) },
+	"fdiv": func(x, y value.Value) value.Value { return ir.NewFDiv(x, y) }, "urem": func(x, y value.Value) value.Value { return ir.NewURem(x, y) },
+	"srem": func(x, y value.Value) value.Value { return ir.NewSRem(x, y) }, "frem": func(x, y value.Value) value.Value { return ir.NewFRem(x, y) },
+	"shl": func(x, y value.Value) value.Value { return ir.NewShl(x, y) }, "lshr": func(x, y value.Value) value.Value { return ir.NewLShr(x, y) },
+	"ashr": func(x, y value.Value) value.Value { return ir.NewAShr(x, y) }, "and": func(x, y value.Value) value.Value { return ir.NewAnd(x, y) },
+	"or": func(x, y value.Value) value.Value { return ir.NewOr(x, y) }, "xor": func(x, y value.Value) value.Value { return ir.NewXor(x, y) },
+}
+
+var instCast = map[string]func(x value.Value, to types.Type) value.Value{
+	"trunc": func(x value.Value, to types.Type) value.Value { return ir.NewTrunc(x, to) }, "zext": func(x value.Value, to types.Type) value.Value { return ir.NewZExt(x, to) },
+	"sext": func(x value.Value, to types.Type) value.Value { return ir.NewSExt(x, to) }, "fptrunc": func(x value.Value, to types.Type) value.Value { return ir.NewFPTrunc(x, to) },
+	"fpext": func(x value.Value, to types.Type) value.Value { return ir.NewFPExt(x, to) }, "fptoui": func(x value.Value, to types.Type) value.Value { return ir.NewFPToUI(x, to) },
+	"fptosi": func(x value.Value, to types.Type) value.Value { return ir.NewFPToSI(x, to) }, "uitofp": func(x value.Value, to types.Type) value.Value { return ir.NewUIToFP(x, to) },
+	"sitofp": func(x value.Value, to types.Type) value.Value { return ir.NewSIToFP(x, to) }, "ptrtoint": func(x value.Value, to types.Type) value.Value { return ir.NewPtrToInt(x, to) },
+	"inttoptr": func(x value.Value, to types.Type) value.Value { return ir.NewIntToPtr(x, to) }, "bitcast": func(x value.Value, to types.Type) value.Value { return ir.NewBitCast(x, to) },
+	"addrspacecast": func(x value.Value, to types.Type) value.Value { return ir.NewAddrSpaceCast(x, to) },
+}
+
+var exprBin = map[string]func(x, y constant.Constant) constant.Constant{
+	"add": func(x, y constant.Constant) constant.Constant { return constant.NewAdd(x, y) }, "sub": func(x, y constant.Constant) constant.Constant { return constant.NewSub(x, y) },
+	"mul": func(x, y constant.Constant) constant.Constant { return constant.NewMul(x, y) }, "shl": func(x, y constant.Constant) constant.Constant { return constant.NewShl(x, y) },
+	"lshr": func(x, y constant.Constant) constant.Constant { return constant.NewLShr(x, y) }, "ashr": func(x, y constant.Constant) constant.Constant { return constant.NewAShr(x, y) },
+	"and": func(x, y constant.Constant) constant.Constant { return constant.NewAnd(x, y) }, "or": func(x, y constant.Constant) constant.Constant { return constant.NewOr(x, y) },
+	"xor": func(x, y constant.Constant) constant.Constant { return constant.NewXor(x, y) },
+}
+
+var exprCast = map[string]func(x constant.Constant, to types.Type) constant.Constant{
+	"trunc": func(x constant.Constant, to types.Type) constant.Constant { return constant.NewTrunc(x, to) }, "zext": func(x constant.Constant, to types.Type) constant.Constant { return constant.NewZExt(x, to) },
+	"sext": func(x constant.Constant, to types.Type) constant.Constant { return constant.NewSExt(x, to) }, "fptrunc": func(x constant.Constant, to types.Type) constant.Constant { return constant.NewFPTrunc(x, to) },
+	"fpext": func(x constant.Constant, to types.Type) constant.Constant { return constant.NewFPExt(x, to) }, "fptoui": func(x constant.Constant, to types.Type) constant.Constant { return constant.NewFPToUI(x, to) },
+	"fptosi": func(x constant.Constant, to types.Type) constant.Constant { return constant.NewFPToSI(x, to) }, "uitofp": func(x constant.Constant, to types.Type) constant.Constant { return constant.NewUIToFP(x, to) },
+	"sitofp": func(x constant.Constant, to types.Type) constant.Constant { return constant.NewSIToFP(x, to) }, "ptrtoint": func(x constant.Constant, to types.Type) constant.Constant { return constant.NewPtrToInt(x, to) },
+	"inttoptr": func(x constant.Constant, to types.Type) constant.Constant { return constant.NewIntToPtr(x, to) }, "bitcast": func(x constant.Constant, to types.Type) constant.Constant { return constant.NewBitCast(x, to) },
+	"addrspacecast": func(x constant.Constant, to types.Type) constant.Constant { return constant.NewAddrSpaceCast(x, to) },
+}
+
+func maskConst(b *tyutil.Builder, m *tyutil.Term) constant.Constant {
+	ty := b.Type(m)
+	if m.SC {
+		return constant.NewZeroInitializer(ty)
+	}
+	var es []constant.Constant
+	for i := 0; i < m.N; i++ {
+		es = append(es, constant.NewInt(types.I32, int64(i%2)))
+	}
+	return constant.NewVector(ty.(*types.VectorType), es...)
+}
+
+func uints(idx []int) []uint64 {
+	var out []uint64
+	for _, i := range idx {
+		out = append(out, uint64(i))
+	}
+	return out
+}
+
+// construct builds the value of the case with the library's constructors.
+func construct(uni tyutil.Universe, c *rcase) types.Type {
+	b := tyutil.NewBuilder(uni, false)
+	ty := func(t *tyutil.Term) types.Type { return b.Type(t) }
+	if c.Form == "cexpr" {
+		var a []constant.Constant
+		for _, o := range c.Ops {
+			a = append(a, constant.NewUndef(ty(o)))
+		}
+		switch {
+		case c.Kind == "fneg":
+			return constant.NewFNeg(a[0]).Type()
+		case exprBin[c.Kind] != nil:
+			return exprBin[c.Kind](a[0], a[1]).Type()
+		case c.Kind == "icmp":
+			return constant.NewICmp(enum.IPredEQ, a[0], a[1]).Type()
+		case c.Kind == "fcmp":
+			return constant.NewFCmp(enum.FPredOEQ, a[0], a[1]).Type()
+		case c.Kind == "extractelement":
+			return constant.NewExtractElement(a[0], constant.NewInt(ty(c.Ops[1]).(*types.IntType), 0)).Type()
+		case c.Kind == "insertelement":
+			return constant.NewInsertElement(a[0], a[1], constant.NewInt(ty(c.Ops[2]).(*types.IntType), 0)).Type()
+		case c.Kind == "shufflevector":
+			return constant.NewShuffleVector(a[0], a[1], maskConst(b, c.Ops[2])).Type()
+		case exprCast[c.Kind] != nil:
+			return exprCast[c.Kind](a[0], ty(c.X.To)).Type()
+		case c.Kind == "select":
+			return constant.NewSelect(a[0], a[1], a[2]).Type()
+		}
+		panic("no constant-expression constructor for " + c.Kind)
+	}
+	var a []value.Value
+	for i, o := range c.Ops {
+		a = append(a, ir.NewParam(fmt.Sprintf("a%d", i), ty(o)))
+	}
+	blk := func(n string) *ir.Block { return ir.NewBlock(n) }
+	switch {
+	case c.Kind == "fneg":
+		return ir.NewFNeg(a[0]).Type()
+	case instBin[c.Kind] != nil:
+		return instBin[c.Kind](a[0], a[1]).Type()
+	case c.Kind == "icmp":
+		return ir.NewICmp(enum.IPredEQ, a[0], a[1]).Type()
+	case c.Kind == "fcmp":
+		return ir.NewFCmp(enum.FPredOEQ, a[0], a[1]).Type()
+	case c.Kind == "extractelement":
+		return ir.NewExtractElement(a[0], a[1]).Type()
+	case c.Kind == "insertelement":
+		return ir.NewInsertElement(a[0], a[1], a[2]).Type()
+	case c.Kind == "shufflevector":
+		return ir.NewShuffleVector(a[0], a[1], maskConst(b, c.Ops[2])).Type()
+	case c.Kind == "extractvalue":
+		return ir.NewExtractValue(a[0], uints(c.X.Idx)...).Type()
+	case c.Kind == "insertvalue":
+		return ir.NewInsertValue(a[0], a[1], uints(c.X.Idx)...).Type()
+	case c.Kind == "alloca":
+		inst := ir.NewAlloca(ty(c.X.Ty))
+		inst.AddrSpace = types.AddrSpace(c.X.AS) // the only way the API offers to place an alloca in an address space
+		return inst.Type()
+	case c.Kind == "load":
+		return ir.NewLoad(ty(c.X.Ty), a[0]).Type()
+	case c.Kind == "cmpxchg":
+		return ir.NewCmpXchg(a[0], a[1], a[2], enum.AtomicOrderingSequentiallyConsistent, enum.AtomicOrderingSequentiallyConsistent).Type()
+	case c.Kind == "atomicrmw":
+		op := map[string]enum.AtomicOp{"xchg": enum.AtomicOpXChg, "add": enum.AtomicOpAdd, "fadd": enum.AtomicOpFAdd}[c.X.Op]
+		return ir.NewAtomicRMW(op, a[0], a[1], enum.AtomicOrderingSequentiallyConsistent).Type()
+	case instCast[c.Kind] != nil:
+		return instCast[c.Kind](a[0], ty(c.X.To)).Type()
+	case c.Kind == "phi":
+		return ir.NewPhi(ir.NewIncoming(a[0], blk("entry"))).Type()
+	case c.Kind == "select":
+		return ir.NewSelect(a[0], a[1], a[2]).Type()
+	case c.Kind == "freeze":
+		return ir.NewInstFreeze(a[0]).Type()
+	case c.Kind == "va_arg":
+		return ir.NewVAArg(a[0], ty(c.X.Ty)).Type()
+	case c.Kind == "call":
+		return ir.NewCall(a[0], a[1:]...).Type()
+	case c.Kind == "invoke":
+		return ir.NewInvoke(a[0], a[1:], blk("ok"), blk("lp")).Type()
+	case c.Kind == "callbr":
+		callee := ir.NewInlineAsm(ty(c.Ops[0]), "", "=r,X")
+		f := ir.NewFunc("f", types.Void)
+		t := blk("t")
+		return ir.NewCallBr(callee, []value.Value{constant.NewBlockAddress(f, t)}, blk("ok"), t).Type()
+	case c.Kind == "landingpad":
+		return ir.NewLandingPad(ty(c.X.Ty)).Type()
+	case c.Kind == "catchswitch":
+		return ir.NewCatchSwitch(&constant.NoneToken{}, []*ir.Block{blk("cp")}, nil).Type()
+	case c.Kind == "catchpad":
+		cs := ir.NewCatchSwitch(&constant.NoneToken{}, []*ir.Block{blk("cp")}, nil)
+		return ir.NewCatchPad(cs).Type()
+	case c.Kind == "cleanuppad":
+		return ir.NewCleanupPad(&constant.NoneToken{}).Type()
+	}
+	panic("no constructor for " + c.Kind)
+}
+
+// --- parsed values -----------------------------------------------------------------
+
+type typed interface{ Type() types.Type }
+
+// locate finds the value of the case in the parsed module.
+func locate(m *ir.Module, c *rcase) (typed, error) {
+	var f *ir.Func
+	for _, g := range m.Funcs {
+		if len(g.Blocks) > 0 {
+			f = g
+		}
+	}
+	if f == nil {
+		return nil, fmt.Errorf("no function definition in the parsed module")
+	}
+	if c.Form == "cexpr" {
+		for _, in := range f.Blocks[0].Insts {
+			if st, ok := in.(*ir.InstStore); ok {
+				if e, ok := st.Src.(constant.Expression); ok {
+					if got := reflect.TypeOf(e).Elem().Name(); got != "Expr"+goName[c.Kind] {
+						return nil, fmt.Errorf("stored constant is %s, expected Expr%s", got, goName[c.Kind])
+					}
+					return e, nil
+				}
+				return nil, fmt.Errorf("stored value is %T, not a constant expression", st.Src)
+			}
+		}
+		return nil, fmt.Errorf("no store in the parsed function")
+	}
+	want := "Inst" + goName[c.Kind]
+	if c.Form == "term" {
+		want = "Term" + goName[c.Kind]
+	}
+	for _, b := range f.Blocks {
+		for _, in := range b.Insts {
+			if reflect.TypeOf(in).Elem().Name() == want {
+				return in.(typed), nil
+			}
+		}
+		if b.Term != nil && reflect.TypeOf(b.Term).Elem().Name() == want {
+			if t, ok := b.Term.(typed); ok {
+				return t, nil
+			}
+		}
+	}
+	return nil, fmt.Errorf("no %s in the parsed function", want)
+}
+
+var sites = []string{"constructor", "parser", "recomputed"}
+
+func siteName(c *rcase, site string) string {
+	pkg := "ir"
+	if c.Form == "cexpr" {
+		pkg = "constant"
+	}
+	switch site {
+	case "constructor":
+		return pkg + ".New"
+	case "parser":
+		if c.Form == "cexpr" {
+			return "asm(constant expression)"
+		}
+		return "asm"
+	}
+	return pkg + ".Type() on the parsed value"
+}
+
+type result struct {
+	c     *rcase
+	out   map[string]tyutil.Outcome
+	class map[string]string
+}
+
+func evaluate(uni tyutil.Universe, c *rcase, valid bool) *result {
+	r := &result{c: c, out: map[string]tyutil.Outcome{}, class: map[string]string{}}
+	for _, s := range sites {
+		r.out[s] = tyutil.Outcome{NA: true}
+	}
+	if valid {
+		r.out["constructor"] = tyutil.Observe(func() (types.Type, error) { return construct(uni, c), nil })
+		var v typed
+		r.out["parser"] = tyutil.Observe(func() (types.Type, error) {
+			m, err := asm.ParseString("c06.ll", uni.Defs()+prelude+c.unit("f"))
+			if err != nil {
+				return nil, err
+			}
+			x, err := locate(m, c)
+			if err != nil {
+				return nil, err
+			}
+			v = x
+			if t, has := tyutil.TypField(x); has && t != nil {
+				return t, nil // the type the parser attached
+			}
+			return x.Type(), nil
+		})
+		if v != nil && tyutil.ClearTyp(v) {
+			r.out["recomputed"] = tyutil.Observe(func() (types.Type, error) { return v.Type(), nil })
+		}
+	}
+	for _, s := range sites {
+		r.class[s] = r.out[s].Class(c.Want)
+	}
+	return r
+}
+
+// plainness orders the cases of one kind: fewer type nodes first, then plainer
+// kinds (integer < floating point < pointer < vector < array < struct < ...),
+// then the spelling.
+func plainness(c *rcase) string {
+	n := 0
+	var rank strings.Builder
+	kindRank := map[string]byte{"int": 'a', "float": 'b', "ptr": 'c', "vec": 'd', "arr": 'e', "struct": 'f', "named": 'g', "func": 'h'}
+	var walk func(t *tyutil.Term)
+	walk = func(t *tyutil.Term) {
+		if t == nil {
+			return
+		}
+		n++
+		r, ok := kindRank[t.K]
+		if !ok {
+			r = 'i'
+		}
+		rank.WriteByte(r)
+		if t.K == "int" && t.W == 1 {
+			rank.WriteByte('1') // i1 is its own abstract shape; prefer the generic width
+		}
+		if t.K == "ptr" && t.AS != 0 {
+			n++
+		}
+		if t.K == "vec" && t.SC {
+			rank.WriteByte('s')
+		}
+		walk(t.E)
+		walk(t.Ret)
+		for _, f := range t.FS {
+			walk(f)
+		}
+		for _, p := range t.PS {
+			walk(p)
+		}
+	}
+	for _, o := range c.Ops {
+		walk(o)
+		rank.WriteByte(';')
+	}
+	walk(c.X.To)
+	walk(c.X.Ty)
+	return fmt.Sprintf("%04d|%s|%s", n+len(c.X.Idx), rank.String(), c.key())
+}
+
+func abstractOps(c *rcase) string {
+	var os []string
+	for _, o := range c.Ops {
+		os = append(os, o.Abstract())
+	}
+	s := "operands=(" + strings.Join(os, "; ") + ")"
+	if c.X.To != nil {
+		s += " to " + c.X.To.Abstract()
+	}
+	if c.X.Ty != nil {
+		s += " type " + c.X.Ty.Abstract()
+	}
+	if c.X.AS != 0 {
+		s += " addrspace(A)"
+	}
+	return s
+}
+
+func load(rep *mbt.Report, tier string) (tyutil.Universe, []*rcase) {
+	t := mbt.MustTLC(mbt.TLCOpts{Spec: "TypesRes", Cfg: "TypesRes.cfg", Workers: 1, Consts: map[string]string{"Tier": `"` + tier + `"`}, Timeout: 15 * time.Minute})
+	defer t.Cleanup()
+	if len(t.Violated) > 0 {
+		mbt.Infra("ResultType of Types.tla violates the invariants %v of TypesRes.tla: specification error\n%s", t.Violated, mbt.Truncate(t.Output, 3000))
+	}
+	rep.AddTLC(t)
+	recs, err := mbt.ReadNDJSON[rcase](filepath.Join(t.Dir, "res_cases.ndjson"))
+	if err != nil {
+		mbt.Infra("%v", err)
+	}
+	var uni tyutil.Universe
+	var cases []*rcase
+	for k := range recs {
+		if recs[k].Defs != nil {
+			uni = tyutil.Universe(recs[k].Defs)
+			continue
+		}
+		cases = append(cases, &recs[k])
+	}
+	if uni == nil || len(cases) < 500 {
+		mbt.Infra("generator produced %d cases", len(cases))
+	}
+	return uni, cases
+}
+
+func process(rep *mbt.Report, uni tyutil.Universe, cases []*rcase) {
+	// (b) llvm-as
+	units := make([]string, len(cases))
+	renderFail := 0
+	for n, c := range cases {
+		if msg, p := mbt.Guard(func() { units[n] = c.unit(fmt.Sprintf("f%d", n)) }); p {
+			mbt.Infra("renderer: %s (%s)", msg, c.key())
+		}
+	}
+	ok, diag := tyutil.BatchAccept(uni.Defs()+prelude, units, 100)
+	discards := 0
+	byKind := map[string]int{}
+	for n := range cases {
+		if !ok[n] {
+			discards++
+			byKind[cases[n].Kind+"/"+cases[n].Form]++
+			if discards <= 8 {
+				rep.Note("spec/LLVM disagreement (discarded): llvm-as rejects the use of %s at type %s: %s", cases[n].key(), cases[n].Want.LL(), mbt.Truncate(diag[n], 200))
+			}
+		}
+	}
+	_ = renderFail
+	rep.Extra["llvm_validated_cases"] = len(cases) - discards
+	rep.Extra["llvm_discards"] = discards
+	rep.Extra["llvm_discards_by_kind"] = byKind
+	if discards*50 > len(cases) {
+		mbt.Infra("llvm-as rejects %d of %d rendered cases (%s): ResultType of Types.tla or the renderer disagrees with LLVM", discards, len(cases), tyutil.Pct(discards, len(cases)))
+	}
+	// (a)+(c)
+	results := make([]*result, len(cases))
+	llvmoracle.Parallel(len(cases), func(n int) { results[n] = evaluate(uni, cases[n], ok[n]) })
+	// group the failures: site x kind x difference class; the plainest failing case names the group
+	type group struct {
+		rs []*result
+	}
+	groups := map[string]*group{}
+	var order []string
+	kinds := map[string]bool{}
+	perSite := map[string]int{}
+	for _, r := range results {
+		rep.Count(r.c.key(), true)
+		kinds[r.c.Kind+"/"+r.c.Form] = true
+		for _, s := range sites {
+			cls := r.class[s]
+			if cls == "n/a" {
+				continue
+			}
+			perSite[s]++
+			rep.TracesValidated++
+			if cls == "=" {
+				continue
+			}
+			k := siteName(r.c, s) + "|" + r.c.Kind + "|" + cls + "\x00" + s
+			if groups[k] == nil {
+				groups[k] = &group{}
+				order = append(order, k)
+			}
+			groups[k].rs = append(groups[k].rs, r)
+		}
+	}
+	sort.Strings(order)
+	sigs := map[string]int{}
+	for _, k := range order {
+		g := groups[k]
+		site := k[strings.Index(k, "\x00")+1:]
+		head := k[:strings.Index(k, "\x00")]
+		min := g.rs[0]
+		for _, r := range g.rs[1:] {
+			if plainness(r.c) < plainness(min.c) {
+				min = r
+			}
+		}
+		sig := "C06|" + head + "|" + abstractOps(min.c)
+		sigs[sig] = len(g.rs)
+		for _, r := range g.rs {
+			rep.Fail(mbt.Failure{Signature: sig,
+				What: fmt.Sprintf("%s: %s must have type %s, got %s (plainest failing case of this class: %s, required %s, got %s)",
+					siteName(r.c, site), r.c.key(), r.c.Want.LL(), r.out[site], min.c.key(), min.c.Want.LL(), min.out[site]),
+				Case: map[string]interface{}{"site": site, "defs": uni, "case": r.c, "minimal": min.c}})
+		}
+	}
+	rep.Extra["kinds_covered"] = len(kinds)
+	rep.Extra["evaluated_per_site"] = perSite
+	rep.Extra["failure_signatures"] = sigs
+}
+
 // Run is the C06 check.
-func Run(tier, replay string) { mbt.Infra("check C06 is not built yet") }
+func Run(tier, replay string) {
+	log.SetOutput(io.Discard)
+	rep := mbt.NewReport("C06", tier, "model_checking")
+	rep.Rule = "kind x form x operand-shape cases enumerated by TLC with the required result type, validated by llvm-as (result used at that type) and compared with the constructor's, the parser's and the recomputed type"
+	llvmoracle.Require()
+	rng := rand.New(rand.NewSource(mbt.Seed()))
+
+	if replay != "" {
+		runReplay(rep, replay)
+		rep.Finish()
+	}
+	t := mbt.MustTLC(mbt.TLCOpts{Spec: "TypesRes", Cfg: "TypesResDeviation.cfg"})
+	if len(t.Violated) == 0 {
+		mbt.Infra("TypesResDeviation: the rules as implemented agree with the required function on the whole model; the deviation switch is dead")
+	}
+	rep.Extra["as_implemented_refuted_by"] = t.Violated
+	t.Cleanup()
+
+	uni, cases := load(rep, tier)
+	perm := rng.Perm(len(cases))
+	for _, k := range perm[:5] {
+		rep.Sample(map[string]interface{}{"case": cases[k].key(), "required_type": cases[k].Want.LL()})
+	}
+	process(rep, uni, cases)
+	rep.Exhaustive = true
+	rep.Explanation = "exhaustive over the finite case sets of TypesRes.tla for this tier (every value-producing instruction and terminator kind of LLVM 14, every constant-expression kind the library represents, the operand shapes listed in the module); getelementptr is covered by C07; operand shapes outside Shapes are not covered"
+	rep.Assumptions = []string{
+		"llvm-as 14 accepting the rendered function (result stored / used at the required type) validates the required type; the renderer (harness/props/c06) spells the case as the specification means it",
+		"TLC's enumeration of TypesRes.tla is complete for the constants of the tier",
+	}
+	rep.Finish()
+}
+
+func runReplay(rep *mbt.Report, path string) {
+	type rf struct {
+		Failures []struct {
+			Case struct {
+				Defs map[string]*tyutil.Body `json:"defs"`
+				Case *rcase                  `json:"case"`
+				Min  *rcase                  `json:"minimal"`
+			} `json:"case"`
+		} `json:"failures"`
+	}
+	var one rf
+	if e := mbt.ReadJSON(path, &one); e != nil {
+		mbt.Infra("replay %s: %v", path, e)
+	}
+	var cases []*rcase
+	var uni tyutil.Universe
+	seen := map[string]bool{}
+	for _, f := range one.Failures {
+		if f.Case.Case == nil {
+			continue
+		}
+		uni = tyutil.Universe(f.Case.Defs)
+		for _, c := range []*rcase{f.Case.Case, f.Case.Min} {
+			if c != nil && c.Want != nil && !seen[c.key()] {
+				seen[c.key()] = true
+				cases = append(cases, c)
+			}
+		}
+	}
+	if len(cases) == 0 {
+		mbt.Infra("replay %s: no case", path)
+	}
+	process(rep, uni, cases)
+}
